@@ -95,6 +95,10 @@ def faults(ctx, res, stats):
             i = rnd.randrange(n)
             d = df.copy(); d["alter"] = d["alter"].astype(float); d.loc[i, "alter"] += 0.5
             fl.append((f"unconvertible:alter fractional:row {i}", d, None))
+            d = df.copy(); d["geburtsjahr"] = d["geburtsjahr"].astype(float); d.loc[i, "geburtsjahr"] += 0.01
+            fl.append((f"unconvertible:geburtsjahr + 0.01 (near-integer):row {i}", d, None))
+            d = df.copy(); d["hh_id"] = d["hh_id"].astype(float) + 500000.0; d.loc[i, "hh_id"] += 0.4
+            fl.append((f"unconvertible:hh_id 5e5 + 0.4 (near-integer):row {i}", d, None))
             d = df.copy(); d["kind"] = d["kind"].astype(int); d.loc[i, "kind"] = 2
             fl.append((f"unconvertible:kind=2:row {i}", d, None))
             d = df.copy(); d["wohnort_ost"] = d["wohnort_ost"].astype(float); d.loc[i, "wohnort_ost"] = 0.5
@@ -189,7 +193,8 @@ def u9(ctx, res, stats):
 
     rnd = ctx.rng("u9")
     cells = []
-    vals = [0, 1, 2, -1, 7, 2**53, 2**53 + 1, -(2**53) - 1, 2**62 + 1, 0.0, 1.0, 0.5, 2.0, -3.0, 1e300, float("nan"), float("inf"), True, False, "obj"]
+    vals = [0, 1, 2, -1, 7, 2**53, 2**53 + 1, -(2**53) - 1, 2**62 + 1, 0.0, 1.0, 0.5, 2.0, -3.0, 1e300, float("nan"), float("inf"), True, False, "obj",
+            1988.01, 35.0002, 500000.4, 1.000001, 0.999999, 1e-7, -2.00001, 123456.0625]      # near-integers: still not integers
     for ty in ("float", "int", "bool"):
         for v in vals:
             if (ty == "bool" and isinstance(v, bool)) or (ty == "int" and isinstance(v, int) and not isinstance(v, bool)) or (ty == "float" and isinstance(v, float)):
